@@ -101,6 +101,20 @@ type refFlow struct {
 	rulesChanged bool          // a reload with different rules happened since the last pass
 }
 
+// refresh: a packet of the flow passed at now. Normally the deadline becomes now+to. With the routine cache on, a
+// pass that the cache may have answered (cacheMay) does not touch the tracked flow, so its deadline may still be the
+// one set at the last pass that did: after a reload that SHORTENED the idle timeouts that older deadline can be the
+// later one, and the model keeps the later of the two (thorough-sweep style false alarm, corrected: the flow of the
+// C18 alarm had all its packets at one instant, a timeout reload from 10m to 4s in their middle, the packets after
+// the reload answered by the cache; the real entry kept the 10m deadline).
+func (f *refFlow) refresh(now time.Time, to time.Duration, cacheMay bool) {
+	if old := f.lastPass.Add(f.to); cacheMay && old.After(now.Add(to)) {
+		f.lastPass, f.to = now, old.Sub(now)
+		return
+	}
+	f.lastPass, f.to = now, to
+}
+
 func (m *sfwRef) timeout(p uint8) time.Duration {
 	switch p {
 	case firewall.ProtoTCP:
@@ -468,6 +482,8 @@ func (w *sfwWorld) applyRules(in, out []fwRule, initial bool) {
 		w.rc.HarnessError("reload: %v", err)
 		return
 	}
+	w.rc.Logf("%v reload: rules changed=%v new version=%v; timeouts tcp=%v udp=%v default=%v; real firewall now tcp=%v udp=%v default=%v version=%d", w.now, changed, moved, w.ref.tcpT, w.ref.udpT, w.ref.defT,
+		w.V.f.firewall.TCPTimeout, w.V.f.firewall.UDPTimeout, w.V.f.firewall.DefaultTimeout, w.V.f.firewall.rulesVersion)
 	w.rc.Count("op.reload_firewall", 1)
 	if !moved {
 		w.rc.Count("op.reload_identical", 1)
@@ -690,8 +706,8 @@ func runSFW(rc *sk.RunCtx, focus string) {
 			sw.runUntil(sw.now + d)
 			rc.Count("ev.clock_advance", 1)
 		case 2: // reload
-			switch tp.Choose(7) {
-			case 6: // same rules, other idle timeouts: tracked flows stay tracked, the new timeouts apply from their next packet
+			switch tp.Choose(8) {
+			case 6, 7: // same rules, other idle timeouts: tracked flows stay tracked, the new timeouts apply from their next packet
 				was := [3]time.Duration{ref.tcpT, ref.udpT, ref.defT}
 				ref.tcpT = time.Duration(1+tp.Choose(20)) * time.Second
 				ref.udpT = time.Duration(1+tp.Choose(10)) * time.Second
@@ -741,6 +757,17 @@ func runSFW(rc *sk.RunCtx, focus string) {
 			case 3: // new rule sets
 				nin, nout := w.genRules()
 				w.applyRules(nin, nout, false)
+			}
+			// right after the reload: packets of flows seen recently, mostly in the direction opposite to the one last
+			// seen (the reply is the packet that needs the tracked flow and meets it first under the new version)
+			for k, nk := 0, tp.Choose(4); k < nk && len(recent) > 0 && !rc.Failed(); k++ {
+				i := len(recent) - 1 - tp.Choose(minInt(len(recent), 8))
+				inc := recentDir[i]
+				if tp.Chance(2, 3) {
+					inc = !inc
+				}
+				w.dropAndCheck(recent[i], inc, recentPeer[i])
+				rc.Count("probe.post_reload_packets", 1)
 			}
 		case 3: // real path: a (byzantine) peer sends a crafted inner packet through its tunnel; V sends one out
 			p := w.peers[tp.Choose(len(w.peers))]
@@ -852,6 +879,10 @@ func (w *sfwWorld) judge(fp firewall.Packet, incoming bool, p *fwPeer, act func(
 		flowSurely = idle < to
 		origStillAllowed = ref.allowed(fp, fl.incoming, p)
 	}
+	cacheMay := false
+	if t, ok := w.lastPass[fp]; ok && w.cache != nil && now.Sub(t) <= ref.cacheWindow {
+		cacheMay = true // the routine cache may answer for this tuple without looking at the tracked flow
+	}
 	var err error
 	var passed bool
 	if act == nil {
@@ -883,11 +914,18 @@ func (w *sfwWorld) judge(fp firewall.Packet, incoming bool, p *fwPeer, act func(
 		}
 		w.lastPass[fp] = now
 		if fl != nil && flowSurely && origStillAllowed {
-			fl.lastPass, fl.to = now, ref.timeout(fp.Protocol)
+			fl.refresh(now, ref.timeout(fp.Protocol), cacheMay)
 			fl.rulesChanged = false
 			w.stats["probe.passed_by_rule_with_flow"]++
 		} else {
-			ref.flows[fp] = &refFlow{incoming: incoming, lastPass: now, to: ref.timeout(fp.Protocol)}
+			nf := &refFlow{incoming: incoming, lastPass: now, to: ref.timeout(fp.Protocol)}
+			if fl != nil && cacheMay {
+				// (answered by the cache, the older tracked entry and its deadline may still be there)
+				if old := fl.lastPass.Add(fl.to); old.After(now.Add(nf.to)) {
+					nf.to = old.Sub(now)
+				}
+			}
+			ref.flows[fp] = nf
 			w.stats["probe.passed_by_rule"]++
 		}
 		return
@@ -912,16 +950,22 @@ func (w *sfwWorld) judge(fp firewall.Packet, incoming bool, p *fwPeer, act func(
 		case fl == nil:
 			w.fail("C16", "no-rule-no-flow-passed", "%s: no rule allows it and no earlier allowed packet of this flow exists, yet it passed\nin rules:  %v\nout rules: %v", desc, ref.in, ref.out)
 		case !flowLive:
-			w.fail("C18", "expired-flow-honoured", "%s: no rule allows it; the flow's last packet passed %v ago, timeout %v (+%v routine cache), yet it passed", desc, idle, ref.timeout(fp.Protocol), ref.cacheWindow)
+			rf := w.V.f.firewall
+			if sk.Verbose() {
+				_, inCache := w.ticker.Get()[fp]
+				ce := rf.Conntrack.Conns[fp]
+				w.rc.Logf("debug: act=%v inCache=%v conn=%+v now=%v wheel=%+v", act != nil, inCache, ce, time.Now(), rf.Conntrack.TimerWheel)
+			}
+			w.fail("C18", "expired-flow-honoured", "%s: no rule allows it; the flow's last packet passed %v ago, timeout then %v, now %v (+%v routine cache), yet it passed (the firewall object's timeouts: tcp %v udp %v default %v)", desc, idle, fl.to, ref.timeout(fp.Protocol), ref.cacheWindow, rf.TCPTimeout, rf.UDPTimeout, rf.DefaultTimeout)
 		case !origStillAllowed && (w.cache == nil || fl.rulesChanged):
 			if w.cache != nil && idle <= ref.cacheWindow {
 				// the routine-local cache may legitimately answer for one cache window
-				fl.lastPass, fl.to = now, ref.timeout(fp.Protocol)
+				fl.refresh(now, ref.timeout(fp.Protocol), cacheMay)
 				return
 			}
 			w.fail("C19", "stale-flow-honoured", "%s: no rule allows it; its flow was created by a packet in direction incoming=%v that the current rules no longer allow, yet it passed\nin rules:  %v\nout rules: %v", desc, fl.incoming, ref.in, ref.out)
 		default:
-			fl.lastPass, fl.to = now, ref.timeout(fp.Protocol)
+			fl.refresh(now, ref.timeout(fp.Protocol), cacheMay)
 			fl.rulesChanged = false
 			w.stats["probe.passed_by_tracking"]++
 		}
